@@ -476,36 +476,25 @@ PROPS["C17"] = PROPS["C17"] + [h for h in _C08 if "c08_recvq_438_nonce_mi" in h.
 DESCR["C17"]["level"] += " The credential-state half is decided on the real mechanisms (agentshim build): after every non-accepting recv_message the cached parameters, the mechanism state and the learned algorithm are unchanged, the only permitted effect being the protection-violated marker."
 
 
-# C18: the whole-decoder queries did not fit (36-byte / 2-attribute decode: 11-19 GB, > 10 min, with or
-# without the recording builder stub); the harness source stays in verif_context.rs, unregistered.
-_C18_UNREGISTERED = PROPS.pop("C18")
+# C18: the symbolic-type whole-decoder queries did not fit (36-byte / 2-attribute decode with symbolic slot
+# types: 11-19 GB, > 10 min); with CONCRETE attribute types per query (contents symbolic) and the recording
+# builder stub the decode fits (6 GB, ~8 min).  The harnesses c18_decode_* stay in verif_context.rs, unregistered.
+PROPS.pop("C18", None)
 META.pop("C18", None)
-NOT_APPLICABLE["C18"] = ("not decided: every formulation of a whole MessageDecoder::decode query under the solver (68/60/36-byte fixed layouts, 4-kind registry, recording builder stub) needed 11-19 GB and more than 10 minutes "
-                         "because of the StunAttribute drop glue and the decoder dispatch; the option-independent parts are decided elsewhere (ordering filter: C09 kernel for all sequences; framing: C03; unknown data: not decided)")
-
-DATASTUB = "<Data as EncodeAttributeValue>::encode -> size-only stub (bounds check + returned size, no 64 KiB copy); buffers uninitialised"
-_C14_64K = [H("stunrs", MSG + "c14_64k_l%d" % l, tier=t, timeout=1800, mem_gb=16, covers=None, stubs=[NOFMT, TID, DATASTUB],
-              bounds="message = DATA(%d bytes) + DONT-FRAGMENT: %d attribute bytes (concrete), 65600-byte buffer" % (l, 4 + l + ((4 - (l & 3)) & 3) + 4),
-              funcs=["MessageEncoder::encode (length accumulator, header length, returned size)"])
-            for (l, t) in ((65496, "quick"), (65508, "quick"), (65524, "quick"), (65527, "thorough"), (65528, "quick"), (65535, "thorough"))]
-# _C14_64K is not registered: even with concrete sizes and the copy stubbed the 65 600-byte buffer needs > 22 GB (measured)
-
-# client-level halves of C06 / C11 / C15 (glue queries over the contract models)
-PROPS["C11"] = PROPS["C11"] + _G_TIMEOUT1[:3] + [_G_TIMEOUT2[3], _G_TIMEOUT2[0], _G_TIMEOUT2[1]] + [_G_SEND[1], _G_SEND[2]]
-PROPS["C06"] = PROPS["C06"] + [_G_TIMEOUT1[1], _G_TIMEOUT1[2], _G_SEND[2]]
-PROPS["C15"] = PROPS["C15"] + _G_RTT + [_G_RECV[1], _G_TIMEOUT1[1]]
-DESCR["C11"]["level"] += " Client level (agent-slice glue over the queue contract model): after send_request and after on_timeout with any subset of <= 2 deadlines due, a notification is the last event exactly when a request is still outstanding, names an outstanding request with the earliest deadline and carries the queue's remaining time."
-DESCR["C11"]["note"] = "Kernel + glue. The 'consequently every request finishes' sentence is the composition argument of DESIGN.md §3 C11 over the verified pieces, not a further solver query. Trusted: Kani/CBMC, Instant by transmute, non-recursive Instant subtraction stub, environment models of the slice build."
-DESCR["C06"]["level"] += " Client level (glue): one schedule step per expired deadline; Some(interval) -> exactly one OutputPacket that is the packet first sent, re-queued at (now, interval); None -> TransactionFailed and removal; send_request queues (send instant, first interval)."
-DESCR["C15"]["level"] += " Client level (glue): an RTT sample is fed exactly when a response finishes a never-retransmitted request, with value now - sent; a retransmission clears the send instant (Karn); the estimate is reset iff more than 600 s passed since the previous request."
-
-EXTRA = {"C14": {"mir2smt": True}}
-META["C14"]["outside"] = "messages longer than 48 bytes under Kani; at the 64 KiB boundary only the length arithmetic is decided (second engine: every other call of the encode loop is havocked, memory effects ignored)"
-DESCR["C14"]["level"] += " The 64 KiB half is decided by a second engine on the compiler's MIR of the working tree (one encode-loop iteration + epilogue from an arbitrary reachable accumulator value, bit-vector SMT, z3 with cvc5 cross-check): dev MIR — no overflow assertion is violable; release MIR — the accumulator and the returned size never wrap; sat answers are replayed natively in both profiles."
-DESCR["C14"]["note"] = "Kani part: small messages (one attribute, <= 48 bytes) and every attribute encoder with every slice length. MIR part: integer arithmetic only; all calls except the ?-plumbing, try_from/try_into/into, checked_add/ok_or_else and common::padding are havocked (listed in evidence)."
-
-PROPS["C19"] = PROPS["C19"] + [
-    H("stunrs", VAL + "c19_algorithm_values", tier="thorough", timeout=900, mem_gb=10, covers=None, stubs=[NOFMT], bounds="all u16 algorithm ids, 0..3 parameter bytes", funcs=["Algorithm::new/from/algorithm/parameters/clone", "PasswordAlgorithm::new/algorithm/parameters"]),
-    H("stunrs", VAL + "c19_transaction_id_and_cookie", timeout=600, mem_gb=4, covers=None, stubs=[NOFMT], bounds="all 12-byte ids, all 4-byte cookie candidates", funcs=["TransactionId::from/as_bytes/as_ref", "Cookie PartialEq impls"]),
-    H("stunrs", VAL + "c19_message_builder_accessors", tier="thorough", timeout=900, mem_gb=10, covers=None, stubs=[NOFMT, TID], bounds="all methods, 0 or 1 attribute", funcs=["StunMessageBuilder::*", "StunMessage::method/class/attributes/get", "StunAttribute::is_*/as_*"]),
-]
+_C18C = [H("stunrs", CTX + n, tier=t, timeout=2400, mem_gb=14, covers=None, stubs=[NOFMT, TID, REGSMALL, BUILDREC],
+           bounds="%s; attribute TYPES concrete, all value bytes / method / class / transaction id symbolic; decoder options: %s" % (pat, opt),
+           funcs=["MessageDecoder::decode", "context::ignore_attribute", "RawMessage::decode", "RawAttributesIter::next", "Unknown::new"])
+         for (n, t, pat, opt) in (
+    ("c18c_noctx_fp_prio", "quick", "36-byte message FINGERPRINT, PRIORITY", "no context"),
+    ("c18c_default_fp_prio", "quick", "36-byte message FINGERPRINT, PRIORITY", "default context"),
+    ("c18c_not_ignore_fp_prio", "thorough", "36-byte message FINGERPRINT, PRIORITY", "not_ignore"),
+    ("c18c_noctx_prio_fp_unk", "thorough", "44-byte message PRIORITY, FINGERPRINT, unknown 0x7F02", "no context"),
+    ("c18c_not_ignore_prio_fp_unk", "thorough", "44-byte message PRIORITY, FINGERPRINT, unknown 0x7F02", "not_ignore"))]
+prop("C18", [H("stunrs", CTX + "c18_registry_small_agrees", timeout=300, mem_gb=3, covers=None, bounds="7 type codes", funcs=["registry (generated)"])] + _C18C,
+     outside="validation-on vs validation-off (needs MAC/CRC primitives on symbolic buffers); with_unknown_data (the query with a stored unknown value ran out of memory); symbolic attribute types / other layouts (11-19 GB); only the two concrete type patterns listed are decided",
+     assumptions=["the decoded attributes are observed where the decoder hands them to StunMessageBuilder::with_attribute (recording stub)"])
+DESCR["C18"] = {
+    "level": "Bounded model checking of the real MessageDecoder::decode on two concrete attribute-type patterns (FINGERPRINT,PRIORITY and PRIORITY,FINGERPRINT,unknown) with symbolic contents, under the option sets {no context, default context, not_ignore}: a decoder without a context returns what the default context returns, namely the subsequence admitted by the RFC ordering rule, and not_ignore returns every wire attribute in order.",
+    "note": "Partial claim: the validation relation and with_unknown_data are not decided (see outside). The ordering rule itself is decided for all sequences by the C09 kernel.",
+}
+NOT_APPLICABLE.pop("C18", None)
